@@ -174,7 +174,7 @@ class Fitness:
             self.log_likelihood_history_list.append(log_likelihood)
 
         if self.convert_to_chi_squared:
-            figure_of_merit *= -2.0
+            figure_of_merit = figure_of_merit * -2.0
 
         return figure_of_merit
 
